@@ -42,7 +42,7 @@ const NUMERIC: &[&str] = &[
 ];
 const UNICODE: &[&str] = &["é", "日本語", "😀", "naïve café", "\u{a0}pad\u{a0}", "\u{2028}", "a\u{301}", "\u{00AB}INDENT\u{00BB}", "tab\there"];
 const BACKSLASH: &[&str] = &["a\\b", "C:\\data\\in", "\\\\server\\share", "\\n", "x\\\"y", "\\", "trailing\\", "two\\\\"];
-const QUOTE: &[&str] = &["say \"hi\"", "\"", "\"\"", "a\")\nstream Evil = Tick", "'single'", "a\"b"];
+const QUOTE: &[&str] = &["say \"hi\"", "\"", "\"\"", "a\")\nstream Evil = Tick", "a\")\nstream Evil = Tick # ", "'single'", "a\"b"];
 const NEWLINE: &[&str] = &["line1\nline2", "a\n  b", "cr\r\nlf", "\n", "end\n"];
 
 /// A value that cannot be written as a VPL string literal (the language has no escape
@@ -80,7 +80,9 @@ fn connector(t: &mut Tape, name: &str, allow_unrepresentable: bool) -> Conn {
     }
     let n = t.below(5);
     for _ in 0..n {
-        let k = t.of(KEYS);
+        // parameter names that are not VPL identifiers (a small minority: validation decides
+        // whether they are in the domain at all)
+        let k = if t.chance(1, 200) { t.of(&["group.id", "client-id", "a b", "", "é", "9lives", "k:"]) } else { t.of(KEYS) };
         if !params.iter().any(|(pk, _)| pk == k) {
             params.push((k.to_string(), value(t, allow_unrepresentable)));
         }
@@ -195,6 +197,10 @@ fn value_class(v: &str) -> &'static str {
 
 /// worst class among the parameters of the connectors that get injected
 fn case_class(conns: &[&Conn]) -> &'static str {
+    let ident = |k: &str| !k.is_empty() && !k.as_bytes()[0].is_ascii_digit() && k.bytes().all(|b| b.is_ascii_alphanumeric() || b == b'_');
+    if conns.iter().any(|c| c.params.iter().any(|(k, _)| !ident(k))) {
+        return "non-identifier-key";
+    }
     let order = ["unrepresentable-string", "numeric-looking", "backslash", "empty", "unicode", "plain"];
     let mut best = order.len() - 1;
     for c in conns {
